@@ -54,6 +54,8 @@ class RemotePeer:
         self.expected: dict[int, tuple] = {}         # ticket -> (path, filesize) from PeerTransferRequest
         self.file_conns: list[PeerConn] = []
         self.on_offset = None                        # callback(offer dict) when the library sent its offset
+        self.split_handshake: Optional[int] = None   # send the ticket / offset in pieces of this many bytes
+        self.late_upload_failed = False              # PeerUploadFailed of a broken attempt only sent once the next attempt runs
 
     # ---- plumbing ----------------------------------------------------------------------------------------------
     def p_conn(self) -> Optional[PeerConn]:
@@ -109,7 +111,11 @@ class RemotePeer:
             if msg.filename not in self.files:
                 pc.send(M.PeerTransferQueueFailed.Request(msg.filename, 'File not shared.'))
             elif self.auto_offer:
-                self.offer(msg.filename)
+                # like a real uploader: a file that is being sent is not offered a second time
+                busy = any(o['path'] == msg.filename and not o.get('over') and o['state'] == 'sending'
+                           and o.get('conn') is not None and not o['conn'].closed for o in self.offers.values())
+                if not busy:
+                    self.offer(msg.filename)
         elif isinstance(msg, M.PeerTransferReply.Request):
             self.replies.append(msg)
             off = self.offers.get(msg.ticket)
@@ -154,7 +160,7 @@ class RemotePeer:
         off['conn'] = pc
         self.file_conns.append(pc)
         pc.role = ('upload', ticket)
-        pc.send_raw(struct.pack('<I', ticket))
+        self._send_split(pc, struct.pack('<I', ticket))
         off['state'] = 'ticket-sent'
 
     def _on_raw(self, pc: PeerConn, data: bytes):
@@ -168,6 +174,11 @@ class RemotePeer:
                 off['state'] = 'sending'
                 if self.on_offset is not None:
                     self.on_offset(off)
+                if self.late_upload_failed and sum(1 for o in self.offers.values() if o['path'] == off['path']) > 1:
+                    # the report about the previous, broken attempt only gets through now
+                    p = self.ensure_p_conn()
+                    if p is not None:
+                        p.send(M.PeerUploadFailed.Request(off['path']))
                 self._send_file(pc, off)
             return
         # downloader role: the library opened this F connection to us; first the ticket, then the file bytes
@@ -183,7 +194,7 @@ class RemotePeer:
                 path, size = self.expected.get(info['ticket'], (None, None))
                 info['path'], info['size'] = path, size
                 info['offset'] = self.offset_to_send(path) if path is not None else 0
-                pc.send_raw(struct.pack('<Q', info['offset']))
+                self._send_split(pc, struct.pack('<Q', info['offset']))
                 if rest:
                     self._got_file_bytes(pc, info, rest)
                 elif size is not None and info['offset'] >= size:
@@ -192,6 +203,11 @@ class RemotePeer:
                     info['complete'] = True
             return
         self._got_file_bytes(pc, info, data)
+
+    def _send_split(self, pc, data: bytes):
+        step = self.split_handshake or len(data)
+        for i in range(0, len(data), step):
+            pc.send_raw(data[i:i + step])
 
     def _got_file_bytes(self, pc, info, data):
         info['data'] += data
